@@ -19,7 +19,7 @@ RULE = ("Hypothesis draws a data-first model - an LP (feasible / infeasible / op
         "declared bound must hold at the returned values within tau = 1e-5*max(1, sum|terms|).  A method that "
         "refuses the model by raising gives no Solution (discard).  Non-trivial = the model is infeasible by "
         "construction or has a constraint/bound that is active at the optimum."
-        '  Also: one third of the cases re-solve the same problem, tighten a bound between two solves (judged against the current bounds), or carry a constraint between parameters only (need <= cap) that is true or false.')
+        '  Also: one third of the cases re-solve the same problem, tighten a bound between two solves (judged against the current bounds), or carry a constraint between parameters only (need <= cap) that is true or false.  Injection stage (one third of the cases): the minimize seam answers the first call with a drawn point, a drawn success flag and a drawn message ("Optimization terminated successfully", "Positive directional derivative for linesearch", "Iteration limit reached", "Inequality constraints incompatible"); later calls (the SLSQP -> trust-constr retry) run the real SciPy; OPTIMAL is still only allowed at a feasible point.')
 BUDGET = {"quick": {"workers": 16, "examples": 50}, "thorough": {"workers": 16, "examples": 1500}}
 ASSUMPTIONS = ["only status OPTIMAL is constrained by this property"]
 MANIFEST = {
@@ -78,8 +78,62 @@ def check(case):
         classes.append("status:" + sol.status.value)
         classes.append(f"table:{model['family']}/{model['flavour']}/{method}/{sol.status.value}")
         nontrivial = model["flavour"] == "infeasible" or solvecases.has_active(model) or param_false
+        res = _judge(sol, model, built, names, method, desc, classes, param_false)
+        if res is not None:
+            return res
+        inj = case.get("inject")
+        if inj and not param_false:
+            res = _injected(P, inj, model, built, names, method, desc, classes)
+            if res is not None:
+                return res
+            nontrivial = True
+    return Result.ok(nontrivial, classes)
+
+
+def _injected(P, inj, model, built, names, method, desc, classes):
+    """The solver seam reports a drawn point with a drawn success flag / message on its first call (later calls -
+    optyx's own SLSQP -> trust-constr retry - run the real SciPy).  Whatever the solver claims, status OPTIMAL
+    is only allowed if the returned point is feasible."""
+    import optyx.solvers.scipy_solver as ss
+    from scipy.optimize import OptimizeResult
+
+    real = ss.minimize
+    state = {"n": 0}
+    xbad = np.array([float(inj["point"][i % len(inj["point"])]) for i in range(len(names))])
+
+    def fake(*a, **kw):
+        state["n"] += 1
+        if state["n"] > 1:
+            return real(*a, **kw)
+        try:
+            fv = float(kw["fun"](xbad.copy()))
+        except Exception:
+            fv = 0.0
+        return OptimizeResult(x=xbad.copy(), success=inj["success"], status=0 if inj["success"] else 8,
+                              message=inj["message"], fun=fv, nit=3, nfev=3, njev=3)
+
+    ss.minimize = fake
+    try:
+        try:
+            sol = P.solve(method=method)
+        except Exception as ex:
+            classes.append("inject:refused")
+            return None
+    finally:
+        ss.minimize = real
+    if state["n"] == 0:
+        classes.append("inject:seam-not-used")  # LP path
+        return None
+    classes.append(f"inject:success={inj['success']}:{'retry' if state['n'] > 1 else 'single'}:{sol.status.value}")
+    res = _judge(sol, model, built, names, method + "+claimed-by-solver", desc + f" inject={inj}", classes, False)
+    return res
+
+
+def _judge(sol, model, built, names, method, desc, classes, param_false):
+    """None if the solution is consistent with the property, else the violation."""
+    if True:
         if sol.status.value != "optimal":
-            return Result.ok(nontrivial, classes)
+            return None
         if param_false:
             return Result.violation(f"optimal-but-parameter-constraint-false:{method}",
                                     f"status OPTIMAL although the constraint need(7) <= cap(5) cannot hold; {desc}", classes)
@@ -121,7 +175,7 @@ def check(case):
                     return Result.violation(f"violation-raises:{exc_label(ex)}", f"{desc}: {ex!r}", classes)
                 if v > 1e-5 * max(1.0, float(np.sum(np.abs(x))) * 10 + 10):
                     return Result.violation(f"optimal-but-Constraint.violation:{method}", f"violation {v:.3g} at {vals}; {desc}", classes)
-    return Result.ok(nontrivial, classes)
+    return None
 
 
 KNOWN = {}
